@@ -459,7 +459,7 @@ class Fn:
         out.append('}')
         return '\n'.join(out)
 
-def translate(path, only=None):
+def translate(path, only=None, mode='arena'):
     text = open(path).read()
     mod = Mod(text); mod.externs = {}
     res = ['#include <stdint.h>', '#include <stddef.h>',
@@ -486,7 +486,7 @@ def translate(path, only=None):
     F = [Fn(mod, h, b, names) for h, b in fns]
     if only: F = [f for f in F if f.name in only]
     import os
-    bodies = [(f.emit_flat() if os.environ.get('IR2C_FLAT') else f.emit()) for f in F]
+    bodies = [f.emit_flat() for f in F]
     for f in F:
         ps = ', '.join(ctype(t) for t, n in f.params)
         res.append('%s ir_%s(%s);' % (ctype(f.ret), f.name, ps or 'void'))
